@@ -5,7 +5,7 @@ from collections import Counter
 import numpy as np
 
 from . import Violation, HarnessError
-from .line import Monitor, leaves, leaf_parts, INF
+from .line import Monitor, leaves, leaf_parts, true_value, INF
 from .explorer import snapshot, restore
 from .linejobs import monitor
 
@@ -315,6 +315,8 @@ class DataMon(Monitor):
     def __init__(self):
         self.pre = {}
         self.pre_sup = {}
+        self.cleared = False     # the user discarded the recorded data (operation 'cleardata'): counters are compared
+        self.base = {}           # ... with the records added since then
 
     def _lens(self, w):
         out = {}
@@ -347,23 +349,27 @@ class DataMon(Monitor):
         for b in w.dev.values():
             if isinstance(b, Buffer):
                 recs = sd.get('level', {}).get(b.name, [])
+                if self.cleared and not recs:
+                    continue
                 last = recs[-1][1] if recs else 0
                 if last != b.level():
                     raise Violation('level_record', f'{b.name}: last recorded level {last}, actual {b.level()}')
         rm = w.env.resource_manager
         for r, (use, cap) in rm._resources.items():
             recs = sd.get('resource_update', {}).get(r, [])
+            if self.cleared and not recs:
+                continue
             if not recs:
                 raise Violation('resource_record', f'no resource_update record for {r}')
             if (recs[-1][1], recs[-1][2]) != (use, cap):
                 raise Violation('resource_record', f'{r}: last record {recs[-1][1:]} vs pool {(use, cap)}')
         for s in w.sources():
-            n = len(sd.get('supplied_new_part', {}).get(s.name, []))
+            n = len(sd.get('supplied_new_part', {}).get(s.name, [])) + self.base.get(('sup', s.name), 0)
             if s.produced_parts != n:
                 raise Violation('counter', f'{s.name}.produced_parts={s.produced_parts} but {n} supplied records')
         for k in w.dev.values():
             if isinstance(k, Sink):
-                n = len(sd.get('received_part', {}).get(k.name, []))
+                n = len(sd.get('received_part', {}).get(k.name, [])) + self.base.get(('recv', k.name), 0)
                 items = w.hub.delivered_items.get(k.name, [])
                 lv = w.hub.delivered.get(k.name, [])
                 if n != len(items):
@@ -380,6 +386,16 @@ class DataMon(Monitor):
         def add(lab, name, rec):
             exp.setdefault((lab, name), []).append(rec)
 
+        if any(t[0] == 'cleardata' for t in tl):
+            if w.env.simulation_data:
+                raise Violation('records', 'simulation_data.clear() left data behind')
+            self.cleared = True
+            self.pre = {}
+            for s_ in w.sources():
+                self.base[('sup', s_.name)] = s_.produced_parts
+            for k_ in w.dev.values():
+                if isinstance(k_, Sink):
+                    self.base[('recv', k_.name)] = len(w.hub.delivered_items.get(k_.name, []))
         for t in tl:
             if t[0] == 'received':
                 add('received_part', t[1], (now, t[2], t[4], t[5]))
@@ -490,7 +506,7 @@ class ValueMon(Monitor):
         net = 0
         for a in self._assets(w):
             if isinstance(a, Batch):
-                want = sum(p.value for p in a.parts)
+                want = true_value(a)
                 if a.value != want:
                     raise Violation('batch_value', f'batch {a.id}: value {a.value} vs sum of parts {want}')
                 continue
@@ -1277,9 +1293,13 @@ class ScheduleMon(Monitor):
 
     def created(self, w, d, t0):
         if d['kind'] == 'scheduler':
+            self.add(d, t0)
+            if not w.system._simulation_is_initialized:
+                # created by another asset's start-up action, during the one-time initialisation pass: it is initialised
+                # later in that pass like an asset that existed before (obligations checked by start())
+                return
             # a scheduler created while running starts up inside its constructor, i.e. before anything can be
             # registered with it: its targets are registered afterwards and are affected from the next change on
-            self.add(d, t0)
             reg = self.ref[d['name']]['reg']
             self.ref[d['name']]['reg'] = []
             self.startup(w, d['name'], [t for t in w.hub.tlog])
@@ -1499,7 +1519,9 @@ class SensorMon(Monitor):
                     hi = idx[j + 1] if j + 1 < len(idx) else len(tl)
                     sl = tl[i:hi]
                     if (r['finished'] - 1) % (n + 1) == 0:
-                        vals = [{'quality': t[4], 'value': t[5], 'id': t[2]}[a] for a in d['probes']]
+                        # (a processing step registered after the sensor object was built, before the start, is applied
+                        # before the measurement: the sensor hooks in when the simulation starts)
+                        vals = [{'quality': t[4] + (d.get('post_dq') or 0), 'value': t[5], 'id': t[2]}[a] for a in d['probes']]
                         self.measure(w, name, vals, now, sl)
                         sensed_any = True
                     elif [x for x in sl if (x[0] == 'sense_cb' and x[1] == name) or (x[0] == 'cms' and x[2] == name)]:
